@@ -44,6 +44,12 @@ CHECKS = {
  "C20": ("exploration", "icontract post-conditions on every helper's compute_config/do_finalize + independent brute-force cross-check of refusals",
          "Random and boundary requests (input frequency, 1..max outputs, margins, phases, speed grades) for 20 vendor helpers; returned configurations are re-evaluated with device formulae written without LiteX (lib/models/pll.py): outputs within margin, every divider/multiplier/PFD/VCO inside the declared ranges, emitted Instance parameters equal the configuration; refusals are cross-checked by an independent search; the repository's test_clock.py also runs under the contracts.",
          "trusted: icontract, lib/models/pll.py formulae and declared-range tables read from the classes", "4 C20"),
+ "C15": ("exploration", "online invariants every cycle (irq, status, pending model with set-over-clear priority) + one-to-one attribution of clear cycles to software write-ones; trigger/clear offset sweep",
+         "1..2 EventManagers with 1..12 sources of mixed kinds behind a real CSR bank (8/32 bit, big/little); trigger waveforms and accessor-style software writes with the trigger-to-clear offset swept over -4..+4 cycles; SharedIRQ is the OR.",
+         "trusted: simulator, the per-source model in props/c15.py; the documented clear input is observed to time coincidences", "4 C15"),
+ "C02": ("exploration", "icontract post-conditions on SignalNamespace.get_name / build_signal_namespace + declaration parser over emitted text + fresh-process reproducibility runs",
+         "Generated hostile designs (nested repeated hierarchies, equal names, digit/suffix-like/reserved/underscore overrides, memories, instances, shim on and off) are named through the real namer in several request orders and converted; names must be pairwise distinct, stable, legal and outside an independently written IEEE 1364-2005 + 1800-2017 keyword list, every identifier declared once in the text, and the text identical across fresh processes with different PYTHONHASHSEED.",
+         "trusted: icontract, lib/models/verilog_keywords.py (independent keyword list), the declaration parser in props/c02lib.py", "4 C02"),
 }
 
 def main():
